@@ -181,3 +181,197 @@ pub fn spec_is_rne_value(f: Fmt, mant: u64, e2: i32, sticky: bool, bits: u64) ->
         spec_is_rne_sticky(f, mant, exp as i32, sticky, bits)
     }
 }
+
+// ---------------------------------------------------------------------------
+// Reference natural numbers: fixed width, little-endian, W limbs of 64 bits (value semantics
+// only - no length, no normalisation).  Used as the oracle of the big-integer contracts for
+// operands small enough that every result fits W limbs.
+pub const W: usize = 8;
+pub type RefNat = [u64; W];
+
+/// the natural number stored in a limb slice (len <= W), zero-extended
+pub fn ref_from_slice(x: &[u64]) -> RefNat {
+    let mut r = [0u64; W];
+    let mut i = 0;
+    while i < W {
+        if i < x.len() {
+            r[i] = x[i];
+        }
+        i += 1;
+    }
+    r
+}
+
+/// a + b ; second component: overflowed the W-limb width
+pub fn ref_add(a: &RefNat, b: &RefNat) -> (RefNat, bool) {
+    let mut r = [0u64; W];
+    let mut carry: u128 = 0;
+    let mut i = 0;
+    while i < W {
+        let s = a[i] as u128 + b[i] as u128 + carry;
+        r[i] = s as u64;
+        carry = s >> 64;
+        i += 1;
+    }
+    (r, carry != 0)
+}
+
+/// a * 2^(64 n) ; second component: non-zero limbs were shifted out
+pub fn ref_shl_limbs(a: &RefNat, n: usize) -> (RefNat, bool) {
+    let mut r = [0u64; W];
+    let mut lost = false;
+    let mut i = 0;
+    while i < W {
+        if i + n < W {
+            r[i + n] = a[i];
+        } else if a[i] != 0 {
+            lost = true;
+        }
+        i += 1;
+    }
+    (r, lost)
+}
+
+/// a * 2^n for 0 < n < 64
+pub fn ref_shl_bits(a: &RefNat, n: u32) -> (RefNat, bool) {
+    let mut r = [0u64; W];
+    let mut prev: u64 = 0;
+    let mut i = 0;
+    while i < W {
+        r[i] = (a[i] << n) | (prev >> (64 - n));
+        prev = a[i];
+        i += 1;
+    }
+    (r, (prev >> (64 - n)) != 0)
+}
+
+/// a * y where the 64x64->128 product is supplied by `mul` (so that an uninterpreted
+/// product can be shared with the code under verification)
+pub fn ref_mul_limb(a: &RefNat, y: u64, mul: fn(u64, u64) -> (u64, u64)) -> (RefNat, bool) {
+    let mut r = [0u64; W];
+    let mut carry: u64 = 0;
+    let mut i = 0;
+    while i < W {
+        let (lo, hi) = if a[i] == 0 { (0, 0) } else { mul(a[i], y) };
+        let s = lo as u128 + carry as u128;
+        r[i] = s as u64;
+        // hi + carry-out cannot overflow: hi <= 2^64 - 2
+        carry = hi + (s >> 64) as u64;
+        i += 1;
+    }
+    (r, carry != 0)
+}
+
+pub fn ref_eq(a: &RefNat, b: &RefNat) -> bool {
+    let mut i = 0;
+    let mut ok = true;
+    while i < W {
+        if a[i] != b[i] {
+            ok = false;
+        }
+        i += 1;
+    }
+    ok
+}
+
+pub fn ref_is_zero(a: &RefNat) -> bool {
+    let z = [0u64; W];
+    ref_eq(a, &z)
+}
+
+/// number of bits of the value (0 for 0)
+pub fn ref_bit_length(a: &RefNat) -> u32 {
+    let mut bl: u32 = 0;
+    let mut i = 0;
+    while i < W {
+        if a[i] != 0 {
+            bl = (i as u32) * 64 + (64 - a[i].leading_zeros());
+        }
+        i += 1;
+    }
+    bl
+}
+
+/// bit `k` of the value
+pub fn ref_bit(a: &RefNat, k: u32) -> bool {
+    let limb = (k / 64) as usize;
+    limb < W && (a[limb] >> (k % 64)) & 1 == 1
+}
+
+/// (top 64 bits of the value, any lower bit set) for a non-zero value:
+/// top = floor(value / 2^(bitlen-64)) (value * 2^(64-bitlen) if bitlen < 64)
+pub fn ref_hi64(a: &RefNat) -> (u64, bool) {
+    let bl = ref_bit_length(a);
+    if bl == 0 {
+        return (0, false);
+    }
+    let mut top: u64 = 0;
+    let mut sticky = false;
+    // assemble bit by bit from the definition
+    let mut k: u32 = 0;
+    while k < 64 {
+        // bit (63 - k) of top is bit (bl - 1 - k) of the value
+        if bl >= 1 + k && ref_bit(a, bl - 1 - k) {
+            top |= 1u64 << (63 - k);
+        }
+        k += 1;
+    }
+    let mut i = 0;
+    while i < W {
+        // lower bits: everything below bit (bl - 64)
+        if bl > 64 {
+            let cut = bl - 64; // bits [0, cut) are "lower"
+            let lo_bit = (i as u32) * 64;
+            if lo_bit + 64 <= cut {
+                if a[i] != 0 {
+                    sticky = true;
+                }
+            } else if lo_bit < cut {
+                let nb = cut - lo_bit; // 1..63 low bits of this limb
+                if a[i] & ((1u64 << nb) - 1) != 0 {
+                    sticky = true;
+                }
+            }
+        }
+        i += 1;
+    }
+    (top, sticky)
+}
+
+// ---------------------------------------------------------------------------
+// Digit accumulation (specification of parse::parse_number)
+
+/// For digit strings `int` (no leading zero) and `frac` and exponent `e`, the decimal value is
+/// D * 10^(e - frac.len()) with D the digit string int ++ frac.  The retained significand is
+/// the first 19 SIGNIFICANT digits (leading fraction zeros of a number without integer part
+/// are not significant); `many` says that further significant digits were dropped; the
+/// exponent is scaled so that  mantissa * 10^exponent <= value < (mantissa + 1) * 10^exponent
+/// with equality on the left when nothing was dropped.  Exponent arithmetic saturates.
+pub fn spec_parse_number(int: &[u8], frac: &[u8], e: i32) -> (u64, i32, bool) {
+    let ilen = int.len();
+    let total = ilen + frac.len();
+    let mut s = 0;
+    if ilen == 0 {
+        while s < frac.len() && frac[s] == b'0' {
+            s += 1;
+        }
+    }
+    let cut = if s + 19 < total { s + 19 } else { total };
+    let mut m: u64 = 0;
+    let mut k = s;
+    while k < cut {
+        let d = if k < ilen { int[k] } else { frac[k - ilen] };
+        m = m * 10 + (d - b'0') as u64;
+        k += 1;
+    }
+    let many = total - s > 19;
+    let ex = e as i64 + ilen as i64 - cut as i64;
+    let ex = if ex > i32::MAX as i64 {
+        i32::MAX
+    } else if ex < i32::MIN as i64 {
+        i32::MIN
+    } else {
+        ex as i32
+    };
+    (m, ex, many)
+}
